@@ -83,22 +83,25 @@ Qed.
 Lemma qlen_nonneg xs : 0 <= qlen xs.
 Proof. unfold qlen. change 0 with (inject_Z 0). rewrite <- Zle_Qle. lia. Qed.
 
-Lemma D1_shift c h xs : D1 (c + h) xs == D1 c xs - qlen xs * h.
+(* moving the centre from c to c' *)
+Lemma D1_shift c c' xs : D1 c' xs == D1 c xs - qlen xs * (c' - c).
 Proof.
   unfold D1, qlen. induction xs as [|x r IH]; [simpl; ring|].
   simpl map. simpl qsum'. rewrite IH. simpl length. rewrite Nat2Z.inj_succ. unfold Z.succ.
   rewrite inject_Z_plus. ring.
 Qed.
 
-Lemma D2_shift c h xs : D2 (c + h) xs == D2 c xs - (2 # 1) * h * D1 c xs + qlen xs * (h * h).
+Lemma D2_shift c c' xs :
+  D2 c' xs == D2 c xs - (2 # 1) * (c' - c) * D1 c xs + qlen xs * ((c' - c) * (c' - c)).
 Proof.
   unfold D2, D1, qlen. induction xs as [|x r IH]; [simpl; ring|].
   simpl map. simpl qsum'. rewrite IH. simpl length. rewrite Nat2Z.inj_succ. unfold Z.succ.
   rewrite inject_Z_plus. ring.
 Qed.
 
-Lemma D3_shift c h xs :
-  D3 (c + h) xs == D3 c xs - (3 # 1) * h * D2 c xs + (3 # 1) * (h * h) * D1 c xs - qlen xs * (h * h * h).
+Lemma D3_shift c c' xs :
+  D3 c' xs == D3 c xs - (3 # 1) * (c' - c) * D2 c xs + (3 # 1) * ((c' - c) * (c' - c)) * D1 c xs
+              - qlen xs * ((c' - c) * (c' - c) * (c' - c)).
 Proof.
   unfold D3, D2, D1, qlen. induction xs as [|x r IH]; [simpl; ring|].
   simpl map. simpl qsum'. rewrite IH. simpl length. rewrite Nat2Z.inj_succ. unfold Z.succ.
@@ -121,27 +124,24 @@ Definition Inv (s : mstate) (xs : list Q) : Prop :=
 Lemma Inv_init : Inv moments_init [].
 Proof. unfold Inv, moments_init, qlen, D1, D2, D3. simpl. repeat split; reflexivity. Qed.
 
+(* The proof does not depend on how the C statements are written, only on their value: every goal is
+   reduced to a field identity in x, u, n and the sums about the old centre. *)
 Lemma Inv_push s xs x : Inv s xs -> Inv (moments_push s x) (xs ++ [x]).
 Proof.
   destruct s as [[[n u] m2] m3]. unfold Inv. intros (Hn & H1 & H2 & H3).
-  unfold moments_push.
   assert (Hn1 : ~ n + 1 == 0).
   { rewrite Hn. pose proof (qlen_nonneg xs) as P. intro Z.
     assert (0 < qlen xs + 1) by (apply Qlt_le_trans with (y := 0 + 1); [reflexivity|apply Qplus_le_l; exact P]).
     rewrite Z in H. apply (Qlt_irrefl 0 H). }
-  set (h := (x - u) / (n + (1 # 1))).
-  assert (Eh : h * (n + 1) == x - u) by (unfold h; field; exact Hn1).
-  assert (Eq1 : qlen (xs ++ [x]) == n + 1) by (rewrite qlen_snoc, Hn; reflexivity).
+  unfold moments_push. cbv zeta.
   repeat split.
-  - rewrite Eq1. reflexivity.
-  - rewrite D1_snoc, D1_shift, H1, <- Hn. fold h.
-    setoid_replace (x - (u + h)) with (h * (n + 1) - h) by (rewrite Eh; ring). ring.
-  - rewrite D2_snoc, D2_shift, H1, <- Hn, <- H2. fold h.
-    setoid_replace (x - (u + h)) with (h * (n + 1) - h) by (rewrite Eh; ring).
-    setoid_replace ((x - u) * h * n) with (h * (n + 1) * h * n) by (rewrite Eh; ring). ring.
-  - rewrite D3_snoc, D3_shift, H1, <- Hn, <- H2, <- H3. fold h.
-    setoid_replace (x - (u + h)) with (h * (n + 1) - h) by (rewrite Eh; ring).
-    setoid_replace ((x - u) * h * n) with (h * (n + 1) * h * n) by (rewrite Eh; ring). ring.
+  - rewrite qlen_snoc, <- Hn. ring.
+  - rewrite D1_snoc, (D1_shift u), H1, <- Hn.
+    field; (intro Z; apply Hn1; rewrite <- Z; ring).
+  - rewrite D2_snoc, (D2_shift u), H1, <- Hn, <- H2.
+    field; (intro Z; apply Hn1; rewrite <- Z; ring).
+  - rewrite D3_snoc, (D3_shift u), (D2_shift u), H1, <- Hn, <- H2, <- H3.
+    field; (intro Z; apply Hn1; rewrite <- Z; ring).
 Qed.
 
 Lemma Inv_fold l : forall s xs, Inv s xs -> Inv (fold_left moments_push l s) (xs ++ l).
